@@ -50,6 +50,7 @@ Proof.
   destruct (resolver_filter r (rs_name s)) eqn:F.
   - pose proof (cache_add_eff_no_sig now (rs_jitter s) r (rs_cache s)) as NS.
     destruct (cache_add_eff now (rs_jitter s) r (rs_cache s)) as [[c' sg] ce]. cbn [snd] in NS.
+    unfold resolver_report in *.
     set (report := negb (r_ttl r =? 0)%N && negb (existsb (addr_eqb (r_addr r)) (rs_addrs s))).
     match goal with |- context [res_records now rs ?s1] => pose proof (IH s1 a) as IH1; destruct (res_records now rs s1) as [s2 e2] eqn:RR end.
     cbn [snd rs_name rs_addrs] in *. intro H. apply in_app_iff in H as [H|H].
